@@ -1477,7 +1477,20 @@ impl SctpInner {
             let mut sent_queue = self.sent_queue.lock();
             let mut retransmit_count = 0u32;
 
-            for (tsn, record) in sent_queue.iter_mut() {
+            // Oldest chunks first: walk the queue in TSN order, not in raw u32 map order (around
+            // the 2^32 wrap the numerically smallest keys are the newest chunks, and the burst
+            // below would go to them for ever while the oldest ones were only re-timed).
+            let base = self
+                .peer_cumulative_tsn_ack
+                .load(Ordering::SeqCst)
+                .wrapping_add(1);
+            let mut order: Vec<u32> = sent_queue.keys().copied().collect();
+            order.sort_by_key(|t| t.wrapping_sub(base));
+
+            for tsn in &order {
+                let Some(record) = sent_queue.get_mut(tsn) else {
+                    continue;
+                };
                 if !record.acked && !record.abandoned {
                     // Mark all unacked packets as no longer in-flight
                     if record.in_flight {
